@@ -119,6 +119,14 @@ def check_large_scalars(rep, tier):
     from pyasn1.type import univ, constraint, namedtype
     rng_int = univ.Integer().subtype(subtypeSpec=constraint.ValueRangeConstraint(0, 10))
     sv_int = univ.Integer().subtype(subtypeSpec=constraint.SingleValueConstraint(1, 2))
+    un_int = univ.Integer().subtype(subtypeSpec=constraint.ConstraintsUnion(constraint.ValueRangeConstraint(0, 5),
+                                                                             constraint.SingleValueConstraint(9)))
+    from pyasn1.type import tag as _tag
+    rec_absent = univ.Sequence(componentType=namedtype.NamedTypes(
+        namedtype.OptionalNamedType('id', univ.Integer()),
+        namedtype.OptionalNamedType('name', univ.Integer().subtype(implicitTag=_tag.Tag(_tag.tagClassContext, _tag.tagFormatSimple, 1))))
+    ).subtype(subtypeSpec=constraint.WithComponentsConstraint(('id', constraint.ComponentPresentConstraint()),
+                                                               ('name', constraint.ComponentAbsentConstraint())))
     enum = univ.Enumerated(namedValues=[('a', 1)]).subtype(subtypeSpec=constraint.SingleValueConstraint(1))
     seqof = univ.SequenceOf(componentType=rng_int)
     rec = univ.Sequence(componentType=namedtype.NamedTypes(namedtype.NamedType('n', rng_int),
@@ -130,7 +138,8 @@ def check_large_scalars(rep, tier):
         neg = b'\x80' + b'\x00' * n
         arc = b'\xff' * n + b'\x7f'
         inputs += [
-            ('int+', tlv(0x02, big), [None, univ.Integer(), rng_int, sv_int]),
+            ('int+', tlv(0x02, big), [None, univ.Integer(), rng_int, sv_int, un_int]),
+            ('absent-int', tlv(0x30, tlv(0x02, b'\x05') + tlv(0x81, big)), [rec_absent]),
             ('int-', tlv(0x02, neg), [None, rng_int]),
             ('enum', tlv(0x0a, big), [None, enum, univ.Enumerated()]),
             ('seqof-int', tlv(0x30, tlv(0x02, big)), [None, seqof]),
